@@ -630,6 +630,12 @@ def main():
             chk.count("explosive-literal programs analysed")
             if pr["analysed"] and pr["y_covered"]:
                 chk.count("explosive-literal programs whose other definition is still covered by value")
+            else:
+                chk.fail(f"unbounded-fold:{pr['explosive']}:analysis-incomplete",
+                         f"after the explosive literal of program '{pr['explosive']}' the entry was "
+                         f"{'not analysed at all' if not pr['analysed'] else 'analysed, but `y = 5` on the next line is no longer covered by the value 5'}",
+                         {"programs": [], "explosive": [x for x in gv.explosive_programs(f"s{chk.seed}") if x["name"] == pr["explosive"]],
+                          "variant": 0, "batch": True})
             continue
         if pr["dropped"]:
             chk.count("programs dropped (oracle run did not finish normally)")
